@@ -80,6 +80,13 @@ def check_tree(ctx, out, spec, tag, tree=None, typed=False):
             tree = adapter.build(long_kinds(spec), ctx.pool, typed=True)
         else:
             tree = adapter.build(spec, ctx.pool, typed=typed)
+    try:
+        list(tree.children)
+        list(tree.get_toplevel_nodes())
+    except TypeError:
+        out.fail(dict(kind="tree-level", spec=spec, accessor="children", typed=typed),
+                 f"tree.children = {tree.children!r} / get_toplevel_nodes() = {tree.get_toplevel_nodes()!r}: not a list of the top-level nodes ({tree.count} nodes in the tree)")
+        return
     ser = adapter.Serials()
     ser.by_obj[id(tree.system_root)] = 0
     ser.keep.append(tree.system_root)
@@ -218,6 +225,23 @@ def run(ctx):
         spec = gen.label_forest(shape, ({"a": ctx.rng.choice([0, 1, 2, 18, 19, 24, 25, 12]), "did": 5000 + next(cnt)} for _ in range(n)))
         check_tree(ctx, out, spec, "rnd")
         out.dist["random_tree"] += 1
+    # emptied trees (populated, then cleared / last node removed / everything filtered out): an empty tree like a new one
+    from nutree import Tree as _Tree
+    from nutree.typed_tree import TypedTree as _TypedTree
+
+    for typed_ in (False, True):
+        for how in ("clear", "remove", "filter"):
+            t_ = (_TypedTree if typed_ else _Tree)("t")
+            a_ = t_.add("tmp-A", **({"kind": "kind-a"} if typed_ else {}))
+            a_.add("tmp-a1", **({"kind": "kind-b"} if typed_ else {}))
+            if how == "clear":
+                t_.clear()
+            elif how == "remove":
+                a_.remove()
+            else:
+                t_.filter(lambda n: False)
+            check_tree(ctx, out, {"emptied": how, "typed": typed_}, "emptied", tree=t_, typed=typed_)
+            out.dist["emptied_tree"] += 1
     # typed trees with mixed kinds among siblings: asked for ANY kind, the kind-aware overrides of TypedNode are the plain queries
     for spec in TYPED_CORPUS:
         check_tree(ctx, out, spec, "typed-corpus", typed=True)
@@ -288,7 +312,22 @@ def replay(ctx, rp):
 
     out = core.Outcome()
     spec = rp["case"]["spec"]
-    if isinstance(spec, dict) and "history" in spec:
+    if isinstance(spec, dict) and "emptied" in spec:
+        from nutree import Tree as _Tree
+        from nutree.typed_tree import TypedTree as _TypedTree
+
+        typed_, how = bool(spec.get("typed")), spec["emptied"]
+        t_ = (_TypedTree if typed_ else _Tree)("t")
+        a_ = t_.add("tmp-A", **({"kind": "kind-a"} if typed_ else {}))
+        a_.add("tmp-a1", **({"kind": "kind-b"} if typed_ else {}))
+        if how == "clear":
+            t_.clear()
+        elif how == "remove":
+            a_.remove()
+        else:
+            t_.filter(lambda n: False)
+        check_tree(ctx, out, spec, "replay", tree=t_, typed=typed_)
+    elif isinstance(spec, dict) and "history" in spec:
         import world
 
         impl = world.ImplWorld(ctx.pool)
